@@ -11,7 +11,7 @@ import vlib
 STDLIB = os.path.join(vlib.REPO, "library")
 
 
-def _run_chunk(exe, jobs, workdir, env, per_job_timeout):
+def _run_chunk(exe, jobs, workdir, env, per_job_timeout, stderr_out=None):
     """Run jobs sequentially in one or more prog_runner processes. Returns {id: result}."""
     results = {}
     remaining = list(jobs)
@@ -33,6 +33,8 @@ def _run_chunk(exe, jobs, workdir, env, per_job_timeout):
             rc, err = p.returncode, p.stderr.decode(errors="replace")
         except subprocess.TimeoutExpired as ex:
             rc, err = -999, "driver timeout"
+        if stderr_out is not None and err.strip():
+            stderr_out.append(err)
         begun = None
         done = set()
         if os.path.exists(rf):
@@ -63,7 +65,7 @@ def _run_chunk(exe, jobs, workdir, env, per_job_timeout):
     return results
 
 
-def run_jobs(jobs, variant="plain", procs=None, env=None, per_job_timeout=25):
+def run_jobs(jobs, variant="plain", procs=None, env=None, per_job_timeout=25, stderr_out=None):
     """jobs: list of dicts with unique 'id'. Returns {id: result}."""
     if not jobs:
         return {}
@@ -80,7 +82,7 @@ def run_jobs(jobs, variant="plain", procs=None, env=None, per_job_timeout=25):
                     continue
                 wd = os.path.join(tmp, "w%d" % i)
                 os.makedirs(wd)
-                futs.append(ex.submit(_run_chunk, exe, ch, wd, env, per_job_timeout))
+                futs.append(ex.submit(_run_chunk, exe, ch, wd, env, per_job_timeout, stderr_out))
             for f in futs:
                 out.update(f.result())
         return out
